@@ -1047,14 +1047,13 @@ REQUIRED = ['pav_eq_spec', 'pavSpec_some_iff', 'pav_returns_iff_unique_maximiser
             'pav_jr_unrepresented', 'pav_justified_representation',
             'spav_eq_spec', 'spav_round_argmax', 'spav_error_is_tie',
             'score_aggregate_eq_spec', 'mj_median_is_lower_median', 'score_mean_exact', 'score_eq_spec',
+            'score_truncation_eq_spec', 'score_unscored_eq_spec', 'score_min_count_eq_spec',
             'mj_elects_highest_medians', 'star_runoff_pairwise', 'star_eq_schulze_of_runoff',
             'mj_default_tiebreak_witness', 'mj_default_tiebreak_scale_witness', 'star_single_runoff_witness',
             'star_boundary_tie_witness', 'star_member_dropped_witness', 'allocated_empty_ballot_witness',
             'allocated_ballots_run_out_witness']
 
 UNPROVED = [
-    'score_truncation_eq_spec: the count dict after `_subtract_lowest` twice expands to the sorted grade list without its '
-    '`cutoff` lowest and `cutoff` highest entries (modelled and checked by correspondence + oracle only)',
     'mj_default_tiebreak_eq_one_at_a_time: for tied candidates holding equally many grades the default tie-break (removal of '
     '`closest_change` median grades per step) equals the one-grade-at-a-time Balinski-Laraki rule (oracle-checked on every '
     'generated case; FALSE for unequal numbers of grades: mj_default_tiebreak_witness)',
